@@ -298,14 +298,26 @@ pub const L_OVERWRITE: u32 = 1 << 10;
 pub const L_SMALL_TABLE: u32 = 1 << 11;
 pub const L_BIG_TABLE: u32 = 1 << 12;
 pub const L_TOMBSTONE_REUSE: u32 = 1 << 13;
-pub const L_PROP_A: u32 = 1 << 16;
-pub const L_PROP_B: u32 = 1 << 17;
-pub const L_PROP_C: u32 = 1 << 18;
-pub const L_PROP_D: u32 = 1 << 19;
-pub const L_PROP_E: u32 = 1 << 20;
-pub const L_PROP_F: u32 = 1 << 21;
+pub const L_ENTRY_AT_FULL: u32 = 1 << 14;
+pub const L_PROBE_TOMB: u32 = 1 << 15;
+pub const L_ITER_CUT: u32 = 1 << 16;
+pub const L_DRAIN_CUT: u32 = 1 << 17;
+pub const L_EXTRACT_CUT: u32 = 1 << 18;
+pub const L_INTOITER_CUT: u32 = 1 << 19;
+pub const L_CLONE_FROM_DIFF: u32 = 1 << 20;
+pub const L_EQ_DIFF_HISTORY: u32 = 1 << 21;
+pub const L_MANY_MUT: u32 = 1 << 22;
+pub const L_FAULT_UNWOUND: u32 = 1 << 23;
+pub const L_FAULT_GROWTH: u32 = 1 << 24;
+pub const L_FAULT_REHASH: u32 = 1 << 25;
+pub const L_FAULT_OTHER: u32 = 1 << 26;
+pub const L_REINSERT_VACANT: u32 = 1 << 27;
+pub const L_ITER_HASH_LONG: u32 = 1 << 28;
+pub const L_X1: u32 = 1 << 29;
+pub const L_X2: u32 = 1 << 30;
+pub const L_X3: u32 = 1 << 31;
 
-pub const LABEL_NAMES: [(u32, &str); 14] = [
+pub const LABEL_NAMES: [(u32, &str); 29] = [
     (L_TOMBSTONE, "tombstone_present"),
     (L_REHASH_IN_PLACE, "rehash_in_place"),
     (L_RESIZE_UP, "resize_up"),
@@ -320,6 +332,21 @@ pub const LABEL_NAMES: [(u32, &str); 14] = [
     (L_SMALL_TABLE, "table_smaller_than_group"),
     (L_BIG_TABLE, "table_larger_than_group"),
     (L_TOMBSTONE_REUSE, "tombstone_reused"),
+    (L_ENTRY_AT_FULL, "entry_created_at_growth_left_0"),
+    (L_PROBE_TOMB, "probe_window_with_tombstone"),
+    (L_ITER_CUT, "iterator_switched_over_strictly_inside"),
+    (L_DRAIN_CUT, "drain_dropped_strictly_inside"),
+    (L_EXTRACT_CUT, "extract_if_dropped_strictly_inside"),
+    (L_INTOITER_CUT, "into_iter_dropped_strictly_inside"),
+    (L_CLONE_FROM_DIFF, "clone_from_differing_buckets_or_tombstoned_target"),
+    (L_EQ_DIFF_HISTORY, "eq_on_equal_contents_with_different_plans"),
+    (L_MANY_MUT, "get_many_mut_two_present_or_same_entry"),
+    (L_FAULT_UNWOUND, "fault_unwound"),
+    (L_FAULT_GROWTH, "fault_during_growth_into_new_block"),
+    (L_FAULT_REHASH, "hash_fault_under_rehash_in_place_conditions"),
+    (L_FAULT_OTHER, "fault_in_clone_drop_closure_into_or_iterator"),
+    (L_REINSERT_VACANT, "remove_then_reinsert_through_vacant_entry"),
+    (L_ITER_HASH_LONG, "iter_hash_over_long_probe"),
 ];
 
 /// Labels derived from the dumps before and after one operation.
